@@ -56,7 +56,7 @@ def judge(names, s, a):
     front = R.front(s[1], s[2], s[3])
     for choices, res in outs:
         if dyn.is_exc(res):
-            if a == 'PICK_N_DROP' or names in (('pickndrop',), ('move_obstacles',)):
+            if dyn.blamed(names, ('pickndrop', 'move_obstacles'), s, a):
                 return len(outs), True, f'{"+".join(names)} on {a} raised {res[1]}: {res[2]}', sig
             continue  # other totality failures are decided by C01
         if +inventory(res) != want_inv:
@@ -152,7 +152,7 @@ def run(rep, tier, seed):
         names, init_limit, max_states, gcap = ['keydoor.5x5', 'keydoor.7x7', 'keydoor.9x9', 'dynamic_obstacles.5x5',
                                                'dynamic_obstacles.7x7', 'teleport.5x5', 'teleport.7x7',
                                                'crossing.7x7'], 3000, 400000, None
-    rs, rt = dyn.run_reach(rep, names, init_limit, max_states, make_hooks, replay, 'inventory', group_cap=gcap)
+    rs, rt = dyn.run_reach(rep, names, init_limit, max_states, make_hooks, replay, 'inventory', group_cap=gcap, lineages=2 if tier == 'quick' else 3)
     rep.assume('object alphabet: all 9 concrete grid-object types with 2 colours, nested boxes; held items include a '
                'non-holdable object (the state space admits any declared type in the hand)')
     return rep.finish(
